@@ -186,9 +186,24 @@ func runC11Concurrent(c *harness.Ctx) {
 	c.AtEnd(verifrt.Deactivate)
 	ttl := []time.Duration{3 * time.Hour, 10}[t.Draw("ttl", 2)]
 	f, _ := replayfilter.New(ttl)
+	_ = f
 	nCallers := 2 + t.Draw("callers", 3)
 	nvals := 1 + t.Draw("nvals", 3)
 	sameTime := t.Draw("sametime", 2) == 1
+	// "now" mode: the callers use TestAndSetNow (the entry point the obfs4
+	// server uses) on the virtual clock, while the scheduler may let a little
+	// time pass between any two statements (a stalled thread).  The clock is
+	// monotone and the TTL is hours, so of all submissions of one value exactly
+	// one may be told "new".
+	useNow := t.Draw("usenow", 3) == 2
+	if useNow {
+		ttl = 3 * time.Hour
+		f, _ = replayfilter.New(ttl)
+		c.S.TimeSkip = 10
+		c.S.SkipMax = time.Millisecond
+		c.S.SkipBudget = 100 * time.Millisecond
+		c.Feature("concurrent-TestAndSetNow")
+	}
 	var ops []porcupine.Operation
 	done := 0
 	base := time.Duration(1 << 40)
@@ -211,7 +226,12 @@ func runC11Concurrent(c *harness.Ctx) {
 			for _, p := range plans {
 				call := int64(c.S.Seq())
 				c.S.Log("invoke", fmt.Sprintf("caller%d %v", i, p.in))
-				out := f.TestAndSet(base0.Add(p.in.now), []byte(p.in.v))
+				var out bool
+				if useNow {
+					out = f.TestAndSetNow([]byte(p.in.v))
+				} else {
+					out = f.TestAndSet(base0.Add(p.in.now), []byte(p.in.v))
+				}
 				c.S.Log("return", fmt.Sprintf("caller%d %v", i, out))
 				ret := int64(c.S.Seq())
 				ops = append(ops, porcupine.Operation{ClientId: i, Input: p.in, Call: call, Output: out, Return: ret})
@@ -230,6 +250,16 @@ func runC11Concurrent(c *harness.Ctx) {
 		return
 	}
 	c.Info["ops"] = len(ops)
+	if useNow {
+		for v, n := range newCount {
+			if n != 1 {
+				c.Violate("C11/test-and-set-not-atomic", "%d concurrent TestAndSetNow submissions of value %s were told 'new' on a monotone clock within the TTL (exactly one may be)", n, v)
+				return
+			}
+		}
+		c.Feature("now-mode-exactly-one-new")
+		return
+	}
 	if sameTime {
 		// the clock did not move: of all submissions of one value exactly one is new
 		for v, n := range newCount {
